@@ -155,6 +155,7 @@ class GetXaddrs(FnCheck):
     prop = 'C19'
     target = f'{PI}:SdcProvider.get_xaddrs'
     optional_fields = ('_alternative_hostname',)
+    cvc5_first = True      # string concatenation / formatting obligations
     doc = 'the advertised device address is "<_urlschema>://..." (hence https when TLS is configured, C19.provider_urlschema)'
 
     def setup(self, b):
@@ -490,3 +491,21 @@ class MkSslContextsFromFolder(FnCheck):
         ex.oblige(st, 'no_ca_file_only_when_none_is_configured', z3.Implies(Val.is_none(ca), z3.Not(self.ca_name_given.e)))
         ex.oblige(st, 'key_and_certificate_from_the_folder', z3.And(
             Val.is_ref(key), joined(key) == Val.str(self.key_name.e), Val.is_ref(cert), joined(cert) == Val.str(self.cert_name.e)))
+
+
+# Notifications and SubscriptionEnd messages are posted through the pooled soap client of the subscriber's host (built
+# with the TLS client context when TLS is configured: C19.provider_soap_client) with the PATH component of NotifyTo /
+# EndTo only. Handing the complete subscriber-supplied address to the client would let its scheme decide (an absolute
+# http:// URL makes the asynchronous client talk plaintext). Under contract in C08, re-checked here.
+from contracts import C08 as _c08   # noqa: E402
+
+
+def _reregister(base, new_id):
+    cls = type('C19_' + base.__name__, (base,), {'id': new_id, 'prop': 'C19'})
+    register(cls)
+
+
+_reregister(_c08.SendReportSync, 'C19.notification_posted_with_relative_path_sync')
+_reregister(_c08.SendReportAsync, 'C19.notification_posted_with_relative_path_async')
+_reregister(_c08.SendEndMessage, 'C19.end_message_posted_with_relative_path_sync')
+_reregister(_c08.SendEndMessageAsync, 'C19.end_message_posted_with_relative_path_async')
